@@ -331,7 +331,7 @@ void h_parse_u64_hex(void) { struct aws_byte_cursor c; uint64_t *dst; GHOSTS();
     if (r == 0) CANARY("parsed"); else CANARY("rejected");
 }
 /* bounded stand-in for the decimal value: every string of up to PARSE_N characters against a reference computed in
- * 128-bit arithmetic (NOT counted as proof) */
+ * 128-bit arithmetic (NOT counted as proof).  Base 16 is characterised completely by the contract of s_read_unsigned. */
 #ifndef PARSE_N
 #define PARSE_N 21
 #endif
@@ -340,18 +340,16 @@ void h_parse_u64_bounded(void) { GHOST_RESET();
     size_t n = nondet_size_t();
     __CPROVER_assume(n <= PARSE_N);
     for (size_t i = 0; i < PARSE_N; ++i) s[i] = nondet_u8();
-    bool hex = nondet_bool();
-    unsigned base = hex ? 16 : 10;
     __uint128_t ref = 0; bool ok = n > 0;
     for (size_t i = 0; i < n; ++i) {
-        unsigned d = SPEC_HEXVAL(s[i]);
-        if (d >= base) ok = false;
-        if (ok) { ref = ref * base + d; if (ref > UINT64_MAX) ok = false; }
+        unsigned d = s[i] - 48u;
+        if (d > 9) ok = false;
+        if (ok) { ref = (ref << 3) + (ref << 1) + d; if (ref > UINT64_MAX) ok = false; }
     }
     struct aws_byte_cursor c = {.len = n, .ptr = n ? s : NULL};
     uint64_t v = nondet_u64();
-    int r = hex ? aws_byte_cursor_utf8_parse_u64_hex(c, &v) : aws_byte_cursor_utf8_parse_u64(c, &v);
-    __CPROVER_assert((r == AWS_OP_SUCCESS) == ok, "accepted exactly when non-empty, all digits valid and the value fits in 64 bits");
+    int r = aws_byte_cursor_utf8_parse_u64(c, &v);
+    __CPROVER_assert((r == AWS_OP_SUCCESS) == ok, "accepted exactly when non-empty, all characters are decimal digits and the value fits in 64 bits");
     __CPROVER_assert(r == AWS_OP_SUCCESS || r == AWS_OP_ERR, "result code");
     __CPROVER_assert(r == AWS_OP_SUCCESS ? v == (uint64_t)ref : v == 0, "value equals the reference; 0 on failure");
     if (r == 0 && n == PARSE_N) CANARY("longest string parsed"); else if (r == 0) CANARY("parsed"); else CANARY("rejected");
@@ -366,3 +364,167 @@ H_ISX(isalpha, IS_UP(ch) || IS_LO(ch))
 H_ISX(isdigit, IS_DG(ch))
 H_ISX(isxdigit, IS_DG(ch) || (ch >= 65 && ch <= 70) || (ch >= 97 && ch <= 102))
 H_ISX(isspace, ch == 32 || (ch >= 9 && ch <= 13))
+
+/* ---------------- plain harness units (no contract instrumentation) ---------------- */
+#ifdef VERIF_PLAIN
+void aws_raise_error_private(int err) { g_last_error = err; g_raise_count++; }
+#endif
+#include <stdlib.h>
+/* an arbitrary valid buffer over caller-owned storage: arbitrary capacity (up to CBMC's object size), arbitrary length and contents */
+static struct aws_byte_buf nd_buf(void) {
+    struct aws_byte_buf b;
+    b.capacity = nondet_size_t();
+    b.len = nondet_size_t();
+    __CPROVER_assume(b.len <= b.capacity && b.capacity < VERIF_HUGE);
+    b.buffer = b.capacity ? malloc(b.capacity) : NULL;
+    __CPROVER_assume(b.capacity == 0 || b.buffer != NULL);
+    b.allocator = NULL;
+    return b;
+}
+static struct aws_byte_cursor nd_cur(void) {
+    struct aws_byte_cursor c;
+    c.len = nondet_size_t();
+    __CPROVER_assume(c.len < VERIF_HUGE);
+    c.ptr = c.len ? malloc(c.len) : NULL;
+    __CPROVER_assume(c.len == 0 || c.ptr != NULL);
+    return c;
+}
+/* aws_byte_buf_cat at arity K (0..3): va_arg function, one of the two multi-part operations (may stop part-way).
+ * Checked: shape kept, len <= capacity, earlier bytes unchanged, sources unchanged, success exactly when everything fits,
+ * on success every appended byte is the source byte; on failure exactly the leading sources that fit were appended. */
+#ifndef CAT_K
+#define CAT_K 3
+#endif
+void h_cat(void) { GHOST_RESET();
+    struct aws_byte_buf dest = nd_buf(), old = dest;
+    struct aws_byte_buf s[3] = {nd_buf(), nd_buf(), nd_buf()};
+    size_t k = nondet_size_t(), j = nondet_size_t(), w = nondet_size_t();
+    uint8_t oldk = 0, srcj = 0; size_t which = 3, off = 0;
+    if (k < dest.len) oldk = dest.buffer[k];
+    /* j: arbitrary position in the concatenation of the sources */
+    { size_t acc = 0; for (int i = 0; i < CAT_K; ++i) { if (which == 3 && j - acc < s[i].len) { which = i; off = j - acc; srcj = s[i].buffer[off]; } acc += s[i].len; } }
+    int r = CAT_K == 0 ? aws_byte_buf_cat(&dest, 0) : CAT_K == 1 ? aws_byte_buf_cat(&dest, 1, &s[0])
+          : CAT_K == 2 ? aws_byte_buf_cat(&dest, 2, &s[0], &s[1]) : aws_byte_buf_cat(&dest, 3, &s[0], &s[1], &s[2]);
+    /* how many leading sources fit, and their total length (no overflow: every length is below 2^56) */
+    size_t fit = 0, total = 0; bool stop = false;
+    for (int i = 0; i < CAT_K; ++i) { if (!stop && old.capacity - old.len - total >= s[i].len) { total += s[i].len; fit++; } else stop = true; }
+    __CPROVER_assert(r == AWS_OP_SUCCESS || r == AWS_OP_ERR, "cat: result code");
+    __CPROVER_assert((r == AWS_OP_SUCCESS) == (fit == CAT_K), "cat: success exactly when every source fits");
+    __CPROVER_assert(dest.capacity == old.capacity && dest.buffer == old.buffer && dest.allocator == old.allocator, "cat: storage, capacity, allocator unchanged");
+    __CPROVER_assert(dest.len <= dest.capacity, "cat: len <= capacity");
+    __CPROVER_assert(dest.len == old.len + total, "cat: length grew by exactly the leading sources that fit (all of them on success)");
+    __CPROVER_assert(k < old.len ? dest.buffer[k] == oldk : 1, "cat: earlier bytes unchanged");
+    __CPROVER_assert(which < 3 && j < total ? dest.buffer[old.len + j] == srcj && s[which].buffer[off] == srcj : 1, "cat: appended byte j equals byte j of the concatenated sources; source unchanged");
+    __CPROVER_assert(w < 3 ? s[w].len <= s[w].capacity : 1, "cat: sources keep their shape");
+#if CAT_K == 0
+    CANARY("nothing to append");
+#elif CAT_K == 1
+    if (r == 0 && total > 0) CANARY("all appended"); else if (r == 0) CANARY("nothing to append"); else CANARY("refused at once");
+#else
+    if (r == 0 && total > 0) CANARY("all appended"); else if (r == 0) CANARY("nothing to append"); else if (fit > 0 && total > 0) CANARY("stopped part-way"); else CANARY("refused at once");
+#endif
+}
+
+#ifdef VERIF_PLAIN
+/* model of aws_mem_acquire for the plain harness units, as specified by its contract in contracts/allocator.h (which the
+ * units mem_acquire.. enforce on the real allocator.c): a fresh block of `size` bytes, never NULL (OOM aborts) */
+void *aws_mem_acquire(struct aws_allocator *allocator, size_t size) {
+    __CPROVER_assert(allocator != NULL && size > 0, "aws_mem_acquire: precondition of its contract");
+    void *p = malloc(size);
+    __CPROVER_assume(p != NULL);
+    return p;
+}
+#endif
+/* aws_byte_buf_init_cache_and_update_cursors at arity K (0..3 cursors + terminating NULL): va_arg function.
+ * dest becomes an exact-fit copy of the concatenated cursors, every cursor is re-pointed at its copy inside dest.
+ * With INIT_CACHE_HUGE the cursors are views longer than any object (unbacked): the length sum may overflow and the
+ * call must then fail before touching a byte, leaving the cursors alone. */
+#ifndef INIT_CACHE_K
+#define INIT_CACHE_K 3
+#endif
+void h_init_cache(void) { GHOST_RESET();
+    struct aws_allocator alloc_obj; struct aws_allocator *a = &alloc_obj;
+    struct aws_byte_buf dest;
+    struct aws_byte_cursor c[3], o[3];
+    for (int i = 0; i < 3; ++i) {
+#ifdef INIT_CACHE_HUGE
+        c[i].len = nondet_size_t(); __CPROVER_assume(c[i].len >= VERIF_HUGE); c[i].ptr = NULL;
+#else
+        c[i] = nd_cur();
+#endif
+        o[i] = c[i];
+    }
+    size_t j = nondet_size_t(); int w = nondet_int(); __CPROVER_assume(0 <= w && w < 3);
+    uint8_t srcj = 0;
+#ifndef INIT_CACHE_HUGE
+    if (w < INIT_CACHE_K && j < c[w].len) srcj = c[w].ptr[j];
+#endif
+    int r = INIT_CACHE_K == 0 ? aws_byte_buf_init_cache_and_update_cursors(&dest, a, NULL)
+          : INIT_CACHE_K == 1 ? aws_byte_buf_init_cache_and_update_cursors(&dest, a, &c[0], NULL)
+          : INIT_CACHE_K == 2 ? aws_byte_buf_init_cache_and_update_cursors(&dest, a, &c[0], &c[1], NULL)
+                              : aws_byte_buf_init_cache_and_update_cursors(&dest, a, &c[0], &c[1], &c[2], NULL);
+    __uint128_t total = 0; size_t off[3];
+    for (int i = 0; i < INIT_CACHE_K; ++i) { off[i] = (size_t)total; total += o[i].len; }
+    __CPROVER_assert(r == AWS_OP_SUCCESS || r == AWS_OP_ERR, "init_cache: result code");
+    __CPROVER_assert((r == AWS_OP_SUCCESS) == (total <= SIZE_MAX), "init_cache: fails exactly when the total length overflows size_t");
+    if (r == AWS_OP_SUCCESS) {
+        __CPROVER_assert(dest.len == (size_t)total && dest.capacity == (size_t)total && dest.allocator == a, "init_cache: exact-fit buffer, len == capacity == total");
+        __CPROVER_assert((total == 0) == (dest.buffer == NULL), "init_cache: storage exactly when there is something to store");
+        __CPROVER_assert(w < INIT_CACHE_K ? c[w].len == o[w].len && c[w].ptr == (dest.buffer == NULL ? NULL : dest.buffer + off[w]) : 1, "init_cache: cursor w now points at its copy inside dest, same length");
+#ifndef INIT_CACHE_HUGE
+        __CPROVER_assert(w < INIT_CACHE_K && j < o[w].len ? dest.buffer[off[w] + j] == srcj && o[w].ptr[j] == srcj : 1, "init_cache: copied byte equals the source byte; source unchanged");
+#endif
+        __CPROVER_assert(w >= INIT_CACHE_K ? c[w].len == o[w].len && c[w].ptr == o[w].ptr : 1, "init_cache: cursors that were not passed are untouched");
+    } else {
+        __CPROVER_assert(dest.len == 0 && dest.capacity == 0 && dest.buffer == NULL, "init_cache: failure leaves dest zeroed");
+        __CPROVER_assert(c[w].len == o[w].len && c[w].ptr == o[w].ptr, "init_cache: failure leaves every cursor as it was");
+    }
+#ifdef INIT_CACHE_HUGE
+    if (r != 0) CANARY("length overflow refused");
+#elif INIT_CACHE_K == 0
+    CANARY("empty cache");
+#else
+    if (r == 0 && total > 0) CANARY("cached"); else if (r == 0) CANARY("empty cache");
+#endif
+}
+
+void h_append_null_terminator(void) { struct aws_byte_buf *b; GHOSTS();
+    s_null_terminator_cursor.len = 1; s_null_terminator_cursor.ptr = (uint8_t *)"\0"; /* its static initialiser */
+    if (g_j < 1) g_src = 0;
+    int r = aws_byte_buf_append_null_terminator(b);
+    if (r == 0) CANARY("terminated"); /* refusal needs len == SIZE_MAX: unreachable with backed storage */
+}
+
+/* bounded stand-in (NOT counted as proof) for the direction the contracts of the hand-written comparison loops cannot
+ * state without an existential: "false ==> some byte differs / result sign follows the FIRST difference".  All arrays of
+ * up to EQB_N bytes, results compared with a direct reference computation. */
+#ifndef EQB_N
+#define EQB_N 4
+#endif
+void h_eq_loops_bounded(void) { GHOST_RESET();
+    uint8_t a[EQB_N + 1], b[EQB_N + 1], t[256];
+    size_t la = nondet_size_t(), lb = nondet_size_t();
+    __CPROVER_assume(la <= EQB_N && lb <= EQB_N);
+    for (size_t i = 0; i <= EQB_N; ++i) { a[i] = nondet_u8(); b[i] = nondet_u8(); }
+    for (int i = 0; i < 256; ++i) t[i] = nondet_u8();
+    /* b doubles as a C string of length lb */
+    for (size_t i = 0; i < EQB_N; ++i) if (i < lb) __CPROVER_assume(b[i] != 0);
+    b[lb] = 0;
+    bool same = la == lb, same_nc = la == lb, all_space = true; int ord = 0;
+    for (size_t i = 0; i < EQB_N; ++i) {
+        if (i < la && i < lb) {
+            if (a[i] != b[i]) same = false;
+            if (SPEC_LOWER_F(a[i]) != SPEC_LOWER_F(b[i])) same_nc = false;
+            if (ord == 0 && t[a[i]] != t[b[i]]) ord = t[a[i]] < t[b[i]] ? -1 : 1;
+        }
+        if (i < la && !(a[i] == 32 || (a[i] >= 9 && a[i] <= 13))) all_space = false;
+    }
+    if (ord == 0) ord = la < lb ? -1 : la > lb ? 1 : 0;
+    struct aws_byte_cursor ca = {.len = la, .ptr = la ? a : NULL}, cb = {.len = lb, .ptr = lb ? b : NULL};
+    __CPROVER_assert(aws_array_eq_ignore_case(ca.ptr, la, cb.ptr, lb) == same_nc, "array_eq_ignore_case == reference (both directions)");
+    __CPROVER_assert(aws_array_eq_c_str(ca.ptr, la, (const char *)b) == same, "array_eq_c_str == reference (both directions)");
+    __CPROVER_assert(aws_array_eq_c_str_ignore_case(ca.ptr, la, (const char *)b) == same_nc, "array_eq_c_str_ignore_case == reference (both directions)");
+    __CPROVER_assert(aws_byte_cursor_compare_lookup(&ca, &cb, t) == ord, "compare_lookup == order of the first differing mapped byte, then length");
+    __CPROVER_assert(aws_byte_cursor_satisfies_pred(&ca, aws_isspace) == all_space, "satisfies_pred == reference (both directions)");
+    if (same && la == EQB_N) CANARY("equal at full length"); else if (same_nc) CANARY("equal ignoring case"); else CANARY("different");
+}
